@@ -9,9 +9,12 @@ Space   : product-exhaustive, three families.
                       is wrong), mixed, and with one keyword renamed.
           "idle"    - every non-empty subset, in every order, of the gate pool (fixed 1-qubit,
                       parametrised 1-qubit, asymmetric 2-qubit, prepare_all; thorough adds
-                      measure_all and a gate without unitary), with and without idle gates
-                      already in the input, passed to add_idle_gates; every derived idle gate is
-                      emulated on every ordered qubit tuple (3 qubits), two angles, four places.
+                      measure_all and a gate without unitary), plus every ordered subset of
+                      <= 3 (thorough 4) gates of the pool extended by four gates without qubit
+                      parameters (W(t: FLOAT), parameterless Z0(), U(p: untyped),
+                      IR(n: INT, r: REGISTER)); with and without idle gates already in the
+                      input, passed to add_idle_gates; every derived idle gate is emulated on
+                      every ordered qubit tuple (3 qubits), two angles, four places.
           "stretch" - the same ordered subsets x idle gates in the input or not x two suffixes
                       passed to stretched_gates; every classical argument tuple x stretch factor.
 Oracle  : written here from the statement: accepted <=> arity matches and every value fits its
@@ -82,8 +85,9 @@ def make_value(code):
 
 # ---------------------------------------------------------------- oracle for calls
 def fits(kind, code):
-    """True / False / None (= the statement does not decide: a FLOAT-typed parameter whose value
-    is unknown at the call, offered where an integer is wanted)."""
+    """True / False.  An argument fits INT only if it is an int, an integral float, a let
+    holding such a value, or a name whose declared kind is INT or untyped; a FLOAT-kinded name
+    that carries no value does not fit INT."""
     s = SORT[code]
     if kind == "N":
         return True
@@ -102,7 +106,7 @@ def fits(kind, code):
             return True
         if s[0] == "named" and s[1] == "F":
             if s[2] is None:
-                return None
+                return False
             return float(s[2]) == int(s[2])
         return False
     raise ValueError(kind)
@@ -123,17 +127,81 @@ def verdict(sig, args):
 # ---------------------------------------------------------------- gate pool (names of mc.gates fixtures)
 POOL_QUICK = ("G1", "Rz", "CX", "prepare_all")
 POOL_THOROUGH = ("G1", "Rz", "CX", "prepare_all", "measure_all", "N1")
+# active gates without qubit parameters (defined here; mc.gates has none)
+POOL_EXTRA = ("W", "Z0", "U", "IR")
+POOL_ALL = POOL_THOROUGH + POOL_EXTRA
+
+
+def _u_W(t):
+    return np.array([[np.exp(1j * t)]], dtype=complex)  # a global phase: acts on no qubit
+
+
+def _u_Z0():
+    return np.array([[1j]], dtype=complex)
+
+
+def _u_IR(n):
+    return np.diag([1.0, np.exp(0.25j * n)]).astype(complex)
+
+
+# name -> (kinds, parameter names, ideal action of the classical arguments or None)
+LOCAL = {
+    "W": (("F",), ("t",), _u_W),
+    "Z0": ((), (), _u_Z0),
+    "U": (("N",), ("p",), None),
+    "IR": (("I", "R"), ("n", "r"), _u_IR),
+}
+
+
+def fresh_defs():
+    """a fresh table of every pool gate (fixtures of mc.gates plus the local ones)"""
+    t = gates.native_gates(idle=False)
+    for name, (kinds, names, ufun) in LOCAL.items():
+        t[name] = impl.GateDefinition(
+            name, [impl.Parameter(nm, KIND[k]) for nm, k in zip(names, kinds)], ideal_unitary=ufun
+        )
+    return t
 BOUNDARY = ("prepare_all", "measure_all")
 SUFFIXES = ("_s", "2x")
 ANGLES = (0.3, -1.1)
 STRETCH_ANGLES = (0.3, -1.1, 0.0, 2)
 STRETCHES = (0.5, 1, 3)
+EXT_SUBSET_SIZE = {"quick": 3, "thorough": 4}
 NQ = 3
 
 
 def model_sig(name):
-    """kinds of the fixture gate as a string over q/f, its unitary function (or None), busy?"""
-    return gates.SIGS[name]
+    """(kinds over Q/R/I/F/N, ideal action as a function of the classical arguments or None)"""
+    if name in LOCAL:
+        return LOCAL[name][0], LOCAL[name][2]
+    kinds, ufun, _busy = gates.SIGS[name]
+    return tuple(MODEL_KIND[c] for c in kinds), ufun
+
+
+def good_args(mk, r):
+    """one fitting argument per kind (r = a register of NQ qubits)"""
+    return [r[i] if k == "Q" else r if k == "R" else 2 if k == "I" else 0.3 for i, k in enumerate(mk)]
+
+
+def misfit(k, r):
+    """a value that does not fit kind k"""
+    return {"Q": 0.3, "R": 0.3, "F": r[0], "I": 2.5}[k]
+
+
+def call_probes(mk, r, tail=()):
+    """(description, arguments, expected) for a gate of signature mk (+ tail of extra fitting values)"""
+    good = good_args(mk, r)
+    out = [("fitting arguments", good + list(tail), "ok")]
+    if mk:
+        out.append(("one argument short", good[:-1] + list(tail), "JaqalError"))
+    out.append(("one argument more", good + list(tail) + [0.3], "JaqalError"))
+    for i, k in enumerate(mk):
+        if k != "N":
+            out.append(("a misfit for parameter %d" % i, good[:i] + [misfit(k, r)] + good[i + 1:] + list(tail), "JaqalError"))
+    return out
+
+
+CLASSICAL_ALPHABET = {"F": STRETCH_ANGLES, "I": (2, 0)}
 
 
 def kinds_of(defn):
@@ -181,8 +249,8 @@ class C18(Check):
     assumptions = (
         "numbers are compared by value: an int fits FLOAT, an integral float fits INT; bools, NaN and inf are outside the alphabet",
         "an untyped (NONE) name offered as an argument fits every kind (it may stand for anything; macro bodies depend on it)",
-        "a FLOAT-typed parameter without a known value offered where INT is wanted is not decided by the statement: "
-        "acceptance and JaqalError are both taken, any other exception is a violation",
+        "a FLOAT-kinded name that carries no value (a typed parameter passed on) does not fit INT; a FLOAT-kinded let "
+        "with an integral value does",
         "mixing positional and keyword arguments may be rejected (JaqalError) or accepted with the positional call's statement",
         "an argument supplied under a keyword that names no parameter must be rejected",
         "an idle variant of a stretched gate is judged only if stretched_gates returns one",
@@ -196,6 +264,8 @@ class C18(Check):
             "max_arity": 2 if q else 3,
             "values": list(VALUES),
             "pool": list(POOL_QUICK if q else POOL_THOROUGH),
+            "extended_pool": list((POOL_QUICK if q else POOL_THOROUGH) + POOL_EXTRA),
+            "extended_pool_max_subset": EXT_SUBSET_SIZE[tier],
             "suffixes": list(SUFFIXES),
             "stretch_factors": list(STRETCHES),
             "emulated_qubits": NQ,
@@ -217,6 +287,11 @@ class C18(Check):
         pool = tuple(b["pool"])
         for sub in ordered_subsets(pool):
             yield ("sets", sub)
+        ext = tuple(b["extended_pool"])
+        for k in range(1, b["extended_pool_max_subset"] + 1):
+            for sub in itertools.permutations(ext, k):
+                if any(g in LOCAL for g in sub):
+                    yield ("sets", sub)
 
     def block_cases(self, blk):
         if blk[0] == "call":
@@ -273,7 +348,7 @@ class C18(Check):
         if kind == "stretch" and rest[1] != SUFFIXES[0]:
             yield (kind, sub, rest[0], SUFFIXES[0])
         for i, g in enumerate(sub):
-            for g2 in POOL_THOROUGH[: POOL_THOROUGH.index(g)]:
+            for g2 in POOL_ALL[: POOL_ALL.index(g)]:
                 if g2 not in sub:
                     yield (kind, sub[:i] + (g2,) + sub[i + 1:]) + rest
 
@@ -432,7 +507,7 @@ class C18(Check):
 
     # ---- shared: tables -------------------------------------------------------------------
     def _tables(self, sub, flag):
-        base = gates.native_gates(idle=False)
+        base = fresh_defs()
         table_in = {}
         for name in sub:
             table_in[name] = base[name]
@@ -456,9 +531,8 @@ class C18(Check):
         emu = None
         baselines = {}
         for g in sub:
-            kinds_m, ufun, busy = model_sig(g)
-            mk = tuple(MODEL_KIND[c] for c in kinds_m)
-            fresh = gates.native_gates(idle=False)[g]
+            mk, ufun = model_sig(g)
+            fresh = fresh_defs()[g]
             ctx.transition(1)
             if g not in out or out[g].name != g or kinds_of(out[g]) != mk:
                 fails.append(("active-gate-lost", "add_idle_gates(%r) does not return %s unchanged" % (list(table_in), g)))
@@ -490,19 +564,12 @@ class C18(Check):
                 fails.append(("idle-has-unitary", "%s.ideal_unitary is not None" % iname))
             # same signature => same acceptance of calls
             r = impl.Register("r", NQ)
-            good = [r[i] if k == "Q" else 0.3 for i, k in enumerate(mk)]
-            probes = [("valid", good, "ok")]
-            probes.append(("one argument short", good[:-1], "JaqalError"))
-            probes.append(("one argument more", good + [0.3], "JaqalError"))
-            if "F" in mk:
-                probes.append(("qubit for angle", [r[i] for i in range(len(mk))], "JaqalError"))
-            probes.append(("number for qubit", [0.3] * len(mk), "JaqalError"))
-            for what, argv, expect in probes:
+            for what, argv, expect in call_probes(mk, r):
                 ctx.trace()
                 ctx.transition(1)
                 obs = observe(lambda: idle(*argv))
                 if obs[0] != expect:
-                    fails.append(("idle-call", "%s called with %s arguments: %s, expected %s" % (iname, what, obs[:2], expect)))
+                    fails.append(("idle-call", "%s called with %s: %s, expected %s" % (iname, what, obs[:2], expect)))
                 elif obs[0] == "ok":
                     try:
                         suq = list(obs[1].used_qubits)
@@ -516,13 +583,16 @@ class C18(Check):
                 for extra in ("prepare_all", "measure_all", "A3", "A2", "G1"):
                     emu.setdefault(extra, base[extra])
             nq = mk.count("Q")
-            angles = ANGLES if "F" in mk else (None,)
+            angles = ANGLES if ("F" in mk or "N" in mk) else (None,)
+            emulable_parent = ufun is not None and set(mk) <= {"Q", "F"}
             for qt in itertools.permutations(range(NQ), nq):
                 for th in angles:
                     it = iter(qt)
-                    argtext = " ".join("q[%d]" % next(it) if k == "Q" else repr(th) for k in mk)
+                    argtext = " ".join(
+                        "q[%d]" % next(it) if k == "Q" else "q" if k == "R" else "2" if k == "I" else repr(th) for k in mk
+                    )
                     for place in ("begin", "middle", "end", "par"):
-                        partner = "G1 q[%d]" % qt[0] if place == "par" else None
+                        partner = "G1 q[%d]" % (qt[0] if qt else 0) if place == "par" else None
                         bkey = partner
                         if bkey not in baselines:
                             baselines[bkey] = self._state(emu, place, None, partner, ctx)
@@ -539,7 +609,7 @@ class C18(Check):
                         if got[1].shape != b0[1].shape or not np.allclose(got[1], b0[1], rtol=0, atol=1e-12):
                             fails.append(("idle-changes-state", "%s changes the state: max deviation %.3g" % (
                                 label, float(np.abs(got[1] - b0[1]).max()) if got[1].shape == b0[1].shape else -1)))
-                        if place == "middle" and ufun is not None:
+                        if place == "middle" and emulable_parent:
                             act = self._state(emu, place, "%s %s" % (g, argtext), None, ctx)
                             if act[0] == "ok" and not np.allclose(act[1], b0[1], rtol=0, atol=1e-6):
                                 ctx.nontriv(("idle", g, qt, th))
@@ -581,9 +651,8 @@ class C18(Check):
         ctx.state(("stretch", sub, flag, suffix))
         bad_unitary = False
         for g in sub:
-            kinds_m, ufun, busy = model_sig(g)
-            mk = tuple(MODEL_KIND[c] for c in kinds_m)
-            fresh = gates.native_gates(idle=False)[g]
+            mk, ufun = model_sig(g)
+            fresh = fresh_defs()[g]
             sname = g + suffix
             ctx.transition(2)
             if kinds_of(table_in[g]) != mk:
@@ -604,12 +673,11 @@ class C18(Check):
                 continue
             # calls: parent's arguments plus one trailing float
             r = impl.Register("r", NQ)
-            good = [r[i] if k == "Q" else 0.3 for i, k in enumerate(mk)]
-            for what, argv, expect in (
-                ("parent's arguments and a stretch factor", good + [2.0], "ok"),
+            good = good_args(mk, r)
+            for what, argv, expect in call_probes(mk, r, tail=(2.0,)) + [
                 ("parent's arguments only", good, "JaqalError"),
                 ("a qubit as stretch factor", good + [r[NQ - 1]], "JaqalError"),
-            ):
+            ]:
                 ctx.trace()
                 ctx.transition(1)
                 obs = observe(lambda: d(*argv))
@@ -624,8 +692,8 @@ class C18(Check):
                 fails.append(("stretched-unitary-missing", "%s has no ideal unitary, its parent %s has one" % (sname, g)))
             else:
                 ctx.nontriv(("stretch", sub, flag, suffix, g))
-                nf = mk.count("F")
-                for cargs in itertools.product(STRETCH_ANGLES, repeat=nf):
+                alph = [CLASSICAL_ALPHABET[k] for k in mk if k in CLASSICAL_ALPHABET]
+                for cargs in itertools.product(*alph):
                     want = np.array(ufun(*cargs), dtype=complex)
                     for s in STRETCHES:
                         ctx.trace()
@@ -667,15 +735,15 @@ class C18(Check):
     def selfcheck(self):
         table = {(k, v): fits(k, v) for k in KINDS for v in VALUES}
         assert sum(1 for x in table.values() if x is True) == 35, table
-        assert [kv for kv, x in table.items() if x is None] == [("I", "par_f")]
+        assert not [kv for kv, x in table.items() if x is None] and table[("I", "par_f")] is False
         assert fits("I", "f2") is True and fits("I", "f2.5") is False and fits("I", "let_fi") is True
         assert fits("F", "i2") is True and fits("Q", "reg") is False and fits("R", "qubit") is False
         assert verdict(("Q", "F"), ("qubit",)) == "reject" and verdict((), ()) == "accept"
-        assert verdict(("I", "Q"), ("par_f", "i2")) == "reject" and verdict(("I",), ("par_f",)) == "either"
-        for g in POOL_THOROUGH:
-            kinds_m, ufun, busy = model_sig(g)
-            d = gates.native_gates(idle=False)[g]
-            assert kinds_of(d) == tuple(MODEL_KIND[c] for c in kinds_m), g
+        assert verdict(("I", "Q"), ("par_f", "i2")) == "reject" and verdict(("I",), ("par_f",)) == "reject"
+        for g in POOL_ALL:
+            mk, ufun = model_sig(g)
+            d = fresh_defs()[g]
+            assert kinds_of(d) == mk, g
             assert (d.ideal_unitary is None) == (ufun is None), g
         assert len(list(ordered_subsets(POOL_QUICK))) == 64
 
